@@ -2,6 +2,7 @@ package main
 
 import (
 	"fmt"
+	"regexp"
 	"go/ast"
 	"go/token"
 	"go/types"
@@ -76,6 +77,10 @@ type VC struct {
 	deferLits []*ast.FuncLit
 	closureLits map[string]*closureInfo
 	quantDepth int // >0 while the body of a quantifier is being translated
+	asserted   map[string]bool
+	liveSplits int
+	defs       map[string]string
+	patMemo    map[string]bool
 }
 
 func newVC(prog *Program, fi *FuncInfo) *VC {
@@ -93,7 +98,19 @@ func (vc *VC) fail(pos token.Pos, format string, a ...any) {
 	panic(vcError{msg})
 }
 
-func (vc *VC) emit(line string) { vc.script = append(vc.script, line) }
+func (vc *VC) emit(line string) {
+	if strings.HasPrefix(line, "(assert ") {
+		// identical assumptions (type facts re-derived at every read) are emitted once
+		if vc.asserted == nil {
+			vc.asserted = map[string]bool{}
+		}
+		if vc.asserted[line] {
+			return
+		}
+		vc.asserted[line] = true
+	}
+	vc.script = append(vc.script, line)
+}
 
 func (vc *VC) fresh(prefix, sort string) Term {
 	if vc.quantDepth > 0 {
@@ -113,7 +130,45 @@ func (vc *VC) define(prefix string, t Term) Term {
 	vc.n++
 	name := fmt.Sprintf("%s!%d", mangle(prefix), vc.n)
 	vc.emit(fmt.Sprintf("(define-fun %s () %s %s)", name, t.Sort, t.S))
+	if vc.defs == nil {
+		vc.defs = map[string]string{}
+	}
+	vc.defs[name] = t.S
 	return Term{name, t.Sort}
+}
+
+var identRe = regexp.MustCompile(`[A-Za-z_][A-Za-z0-9_]*![0-9]+`)
+
+// patternOK: the pattern stays connective-free after the solver expands defined names.
+func (vc *VC) patternOK(p string) bool {
+	if vc.patMemo == nil {
+		vc.patMemo = map[string]bool{}
+	}
+	for _, id := range identRe.FindAllString(p, -1) {
+		body, isDef := vc.defs[id]
+		if !isDef {
+			continue
+		}
+		ok, seen := vc.patMemo[id]
+		if !seen {
+			vc.patMemo[id] = false // cycle guard
+			ok = validPatternBody(body) && vc.patternOK(body)
+			vc.patMemo[id] = ok
+		}
+		if !ok {
+			return false
+		}
+	}
+	return true
+}
+
+func validPatternBody(s string) bool {
+	for _, bad := range []string{"(ite ", "(and ", "(or ", "(not ", "(=> ", "(= ", "(<= ", "(< ", "(>= ", "(> ", "(forall ", "(exists "} {
+		if strings.Contains(s, bad) {
+			return false
+		}
+	}
+	return true
 }
 
 func (vc *VC) assume(st *State, fact Term) {
@@ -354,27 +409,52 @@ func (vc *VC) heapSet(st *State, key string, t Term) {
 
 const allocKey = "alloc"
 
-func (vc *VC) alloc(st *State) Term { return vc.heapGet(st, allocKey, ArraySort(SInt, SBool)) }
+// Allocation is modelled as a bump allocator: `alloc` is the next unused reference; the allocated
+// references are exactly 1 .. alloc-1 (0 is nil). Programs can only compare references for equality,
+// so any injective naming of objects is a faithful model, and "fresh" becomes arithmetic instead of
+// a quantified array fact.
+func (vc *VC) alloc(st *State) Term { return vc.heapGet(st, allocKey, SInt) }
+
+func (vc *VC) isAlloc(st *State, r Term) Term {
+	return And(app(SBool, "<", IntLit(0), r), app(SBool, "<", r, vc.alloc(st)))
+}
 
 func (vc *VC) isAllocOrNil(st *State, r Term) Term {
-	return Or(Eq(r, IntLit(0)), Select(vc.alloc(st), r))
+	return And(app(SBool, "<=", IntLit(0), r), app(SBool, "<", r, vc.alloc(st)))
 }
 
 // newRef allocates a fresh reference.
-func (vc *VC) newRef(st *State, hint string) Term {
-	r := vc.fresh(hint, SInt)
-	a := vc.alloc(st)
-	vc.assume(st, And(Not(Eq(r, IntLit(0))), Not(Select(a, r))))
-	vc.heapSet(st, allocKey, vc.define("alloc", Store(a, r, True)))
+// hasType: reference r (nil excluded) points to an object of Go type t (the pointer / map type itself).
+func (vc *VC) hasType(r Term, t types.Type) Term {
+	return Eq(app(SInt, "typeof", r), IntLit(int64(vc.tagOf(t))))
+}
+
+func (vc *VC) newRefT(st *State, hint string, t types.Type) Term {
+	r := vc.newRef(st, hint)
+	if t != nil {
+		vc.assume(st, vc.hasType(r, t))
+	}
 	return r
 }
 
-// havocAlloc: callee / loop may allocate.
+func (vc *VC) newRef(st *State, hint string) Term {
+	a := vc.alloc(st)
+	r := vc.define(hint, a)
+	if r.S == a.S { // a plain name: give the object its own name for readable models
+		vc.n++
+		name := fmt.Sprintf("%s!%d", mangle(hint), vc.n)
+		vc.emit(fmt.Sprintf("(define-fun %s () Int %s)", name, a.S))
+		r = Term{name, SInt}
+	}
+	vc.heapSet(st, allocKey, vc.define("alloc", app(SInt, "+", a, IntLit(1))))
+	return r
+}
+
+// havocAlloc: a callee / loop may allocate.
 func (vc *VC) havocAlloc(st *State) {
 	old := vc.alloc(st)
-	nw := vc.fresh("alloc", old.Sort)
-	r := Term{"r!", SInt}
-	vc.assumeGlobal(Forall([]Term{r}, Imp(Select(old, r), Select(nw, r)), Select(old, r)))
+	nw := vc.fresh("alloc", SInt)
+	vc.assumeGlobal(app(SBool, ">=", nw, old))
 	vc.heapSet(st, allocKey, nw)
 }
 
@@ -385,8 +465,7 @@ func (vc *VC) havocAll(st *State) {
 		delete(st.heap, k)
 	}
 	nw := vc.alloc(st)
-	r := Term{"r!", SInt}
-	vc.assumeGlobal(Forall([]Term{r}, Imp(Select(old, r), Select(nw, r)), Select(old, r)))
+	vc.assumeGlobal(app(SBool, ">=", nw, old))
 }
 
 func fieldKey(structName, field string) string { return "F:" + structName + "." + field }
@@ -434,8 +513,10 @@ func (vc *VC) mapDelete(st *State, m, k Term) {
 	vc.heapSet(st, domKey(k.Sort), vc.define("dom", Store(dom, m, Store(Select(dom, m), k, False))))
 }
 
-func (vc *VC) newMap(st *State, ks, vs string) Term {
-	r := vc.newRef(st, "map")
+func (vc *VC) newMap(st *State, ks, vs string) Term { return vc.newMapT(st, ks, vs, nil) }
+
+func (vc *VC) newMapT(st *State, ks, vs string, t types.Type) Term {
+	r := vc.newRefT(st, "map", t)
 	dom := vc.mapDom(st, ks)
 	val := vc.mapVal(st, ks, vs)
 	vc.heapSet(st, domKey(ks), vc.define("dom", Store(dom, r, ConstArray(ks, SBool, False))))
